@@ -623,6 +623,9 @@ def check_C14(chk):
     # .. which estimator each statistic is (C06.b: an estimator that overrides the shared interior-only summation leaves the monomorphic
     # classes in), and that f2's per-cell term pairs every cell with its own frequencies (C06.e: the f3/f4 decomposition is over those terms)
     chk.borrow(lambda: (c06b(chk), f_statistic_formulas(chk), cells_paired_with_frequencies(chk)), "C14.f", 10)
+    # `computed from its two-population marginals`: the marginal keeps the remaining axes in their original order (C04.c/d)
+    import rules_num as RN14_
+    chk.borrow(lambda: (RN14_.c04c(chk), RN14_.c04d(chk)), "C14.g", 8)
     for r, n in (("C14.a", 7), ("C14.b", 14), ("C14.c", 3), ("C14.d", 5)):
         chk.floor(r, n)
 
